@@ -498,7 +498,6 @@ def rule_r6(chk, prog):
     from . import c16
     sub = Check('C16', 'other', 'quick', [], [])
     chk.guard(c16.rule_r6, sub, prog)
-    chk.guard(c16.rule_r9, sub, prog)
     chk.adopt('C02.R6', 'the tables the mutator filters consult are reset '
               'and rebuilt for every sweep (shared with C16.R6): no filter '
               'decision is based on an earlier input', sub)
